@@ -146,15 +146,19 @@ P07_ReturnedNonce(w, ev, w2, h, r) ==
      /\ (t \o NBHex(n)) \in DOMAIN w2.acct[ev.caller].esdt
      /\ w2.acct[ev.caller].esdt[t \o NBHex(n)].hm /\ w2.acct[ev.caller].esdt[t \o NBHex(n)].meta.nonce = n
      /\ (IsDupTok(t) \/ (n > MaxN(h, t) /\ ~(<<t, n>> \in h.made)))
+\* what the hand-over messages in flight carry: token and counter (and who gets them)
+HandoverMsgs(ms) == {<<ms[i].from, ms[i].to, SemMsg(ms[i]).args>> : i \in {j \in 1..Len(ms) : ms[j].fn = "ESDTNFTCreateRoleTransfer"}}
 P07_Handover(w, ev, w2, h, r) ==
   (Call(ev) /\ ev.fn = "ESDTNFTCreateRoleTransfer" /\ Pred(r) /\ r.ok) =>
-     (IsOk(ev) /\ CtrMap(w2) = CtrMap(r.w) /\ RolesMap(w2) = RolesMap(r.w) /\ SemMsgs(w2.msgs) = SemMsgs(r.w.msgs))
+     (IsOk(ev) /\ CtrMap(w2) = CtrMap(r.w) /\ RolesMap(w2) = RolesMap(r.w) /\ HandoverMsgs(w2.msgs) = HandoverMsgs(r.w.msgs))
 P07_CtrOnlyByCreate(w, ev, w2, h, r) ==
   CtrMap(w2) # CtrMap(w) => (Call(ev) /\ IsOk(ev) /\ ev.fn \in {"ESDTNFTCreate", "ESDTNFTCreateRoleTransfer"})
 
 \* C08
+\* the metadata carried by the in-flight payloads (nothing else about the messages: gas, call type ... belong to other properties)
+MsgMetas(ms) == [i \in 1..Len(ms) |-> [id |-> ms[i].id, pay |-> [j \in 1..Len(ms[i].args) |-> IF HasE(ms[i].args[j]) THEN [hm |-> ms[i].args[j].e.hm, meta |-> ms[i].args[j].e.meta] ELSE <<>>]]]
 P08_Conf(w, ev, w2, h, r) ==
-  (Call(ev) /\ IsOk(ev) /\ Pred(r) /\ r.ok) => (MetaOf(w2) = MetaOf(r.w) /\ SemMsgs(w2.msgs) = SemMsgs(r.w.msgs))
+  (Call(ev) /\ IsOk(ev) /\ Pred(r) /\ r.ok) => (MetaOf(w2) = MetaOf(r.w) /\ MsgMetas(w2.msgs) = MsgMetas(r.w.msgs))
 P08_Create(w, ev, w2, h, r) ==
   (Call(ev) /\ IsOk(ev) /\ ev.fn = "ESDTNFTCreate" /\ NArgs(ev) >= 7 /\ ev.retn > 0) =>
      LET k == Arg(ev,1).h \o NBHex(ev.retn) IN
@@ -245,10 +249,12 @@ P10_ParserEqualsLedger(w, ev, w2, h, r) ==
 \* the call-data grammar cannot represent an empty function name or one containing '@' (0x40): such attached calls are outside the property
 HasAt(hx) == \E i \in 1..(Len(hx) \div 2) : SubSeq(hx, 2 * i - 1, 2 * i) = "40"
 Representable(m) == ~(Len(m.fn) >= 2 /\ SubSeq(m.fn, 1, 2) = "0x" /\ (Len(m.fn) = 2 \/ HasAt(SubSeq(m.fn, 3, Len(m.fn)))))
+\* what was encoded: destination, function name, arguments (gas, call type, value are not part of the data string)
+Encoded(ms) == [i \in 1..Len(ms) |-> [to |-> ms[i].to, fn |-> ms[i].fn, args |-> SemMsg(ms[i]).args, tx |-> ms[i].tx]]
 P10_RoundTrip(w, ev, w2, h, r) ==
   (Call(ev) /\ IsOk(ev) /\ Pred(r) /\ r.ok /\ \A i \in 1..Len(r.out) : Representable(r.out[i])) =>
      /\ \A i \in 1..Len(ev.out) : ~ev.out[i].perr
-     /\ NoIds(ev.out) = NoIds(r.out)
+     /\ Encoded(ev.out) = Encoded(r.out)
 P10_Accepted(w, ev, w2, h, r) ==
   (ev.a = "deliver" /\ ~ev.rae /\ Pred(r) /\ r.ok) => IsOk(ev)
 
@@ -284,6 +290,12 @@ P13_InputIntact(w, ev, w2, h, r) == (Call(ev) /\ "intact" \in DOMAIN ev.x) => ev
 HardFault(kind, fn) == kind \in {"write", "load", "save", "marshal", "unmarshal", "payable", "acctop"} \/ (kind = "sysload" /\ fn \in {"ESDTPause", "ESDTUnPause"})
 P17_FaultIsError(w, ev, w2, h, r) == (ev.a = "fault" /\ ev.x.fired /\ HardFault(ev.x.kind, ev.fn)) => ev.res = "err"
 P17_NoPanic(w, ev, w2, h, r) == ev.a = "fault" => ev.res \in {"ok", "err"}
+
+\* C18 (binding under every factory configuration): the behaviour registered under "SetUserName" depends on the factory's
+\* configuration (DNS addresses, whether a user name may be changed); it must be the one the configuration of the trace says
+P18_UserNameBound(w, ev, w2, h, r) ==
+  (Call(ev) /\ ev.fn = "SetUserName" /\ Pred(r)) =>
+     ((IsOk(ev) = r.ok) /\ (IsOk(ev) => [a \in Accts(w2) |-> w2.acct[a].uname] = [a \in Accts(r.w) |-> r.w.acct[a].uname]))
 
 \* replay of a model behaviour: the real code gives the result the model predicted when it generated the step
 P00_ReplayAgrees(w, ev, w2, h, r) == (Call(ev) /\ "mcres" \in DOMAIN ev.x) => ev.res = ev.x.mcres
